@@ -1,5 +1,5 @@
 (* C13 — Per-block receipts, indices, cumulative gas and bloom are mutually consistent. *)
-From Evm Require Import TxPipe TxPipeExt TxPipeProofs TxPipeDenom TxPipeDenomProofs.
+From Evm Require Import TxPipe TxPipeExt TxPipeProofs TxPipeDenom TxPipeDenomProofs TxPipeSeqProofs.
 Open Scope Z_scope.
 
 (* For the Ethereum transaction at ANY position of ANY block (items before it: [pre]): if it reached execution
@@ -119,3 +119,34 @@ Example C13_example_aborted :
                          XItem (DEth (t 2 60000) (mkOut 25000 false 1 [] 0 false) (mkDx [] []))]) in
   map (fun r => (r_tx_index r, r_cum_gas r, r_log_start r)) rs = [(0, 21000, 0); (1, -1, -1); (2, 76000, 2)].
 Proof. vm_compute. reflexivity. Qed.
+
+(* ------------------------------------------------------------------ the whole block at once (Proofs/TxPipeSeqProofs.v):
+   the LIST of Ethereum indices shown by the transactions of a block that reached execution is 0,1,2,...,k-1 in block
+   order (zrange a n = a, a+1, ..., a+n-1), for every block: any state, any items, any execution results *)
+Theorem C13_block_indices_are_0_1_2 : forall s l,
+  let tr := trace (begin_block s) l in
+  shown_indices tr = zrange 0 (Z.of_nat (length (reached tr))).
+Proof. exact block_indices_are_0_1_2. Qed.
+Print Assumptions C13_block_indices_are_0_1_2.
+
+(* the log indices owned by the receipts of a block (receipt k: its first log index .. + its number of logs - 1), read
+   in block order, are 0,1,...,total-1: consecutive across the whole block, no gap, no repeat.  The only hypothesis:
+   an execution never reports a negative number of logs. *)
+Theorem C13_block_log_ids_consecutive : forall s l,
+  let tr := trace (begin_block s) l in
+  Forall (fun x : entry => 0 <= e_logs (snd (fst x))) tr ->
+  shown_log_ids tr = zrange 0 (total_logs tr) /\ NoDup (shown_log_ids tr) /\
+  (forall z, In z (shown_log_ids tr) <-> 0 <= z < total_logs tr).
+Proof. exact block_log_ids_consecutive. Qed.
+Print Assumptions C13_block_log_ids_consecutive.
+
+(* non-vacuity: the block of C13_example: indices [0;1;2]; logs 0,1 (first receipt) and 2 (third), none for the failed one *)
+Example C13_example_sequences :
+  let s := mkSt (fun a => if a =? 7 then 10^18 else 0) (fun _ => 0) (fun a => a =? 7) (fun _ => false)
+                (5 * 10^18) 1000 0 0 0 0 0 0 false false in
+  let t n g := mkTx 7 (Some 7) true false 2000 0 0 g n 0 false 21000 in
+  let tr := trace (begin_block s) [Eth (t 0 50000) (mkOut 21000 false 2 [] 0 false);
+                                   Eth (t 1 30000) (mkOut 0 false 0 [] 0 true);
+                                   Eth (t 2 60000) (mkOut 25000 false 1 [] 0 false)] in
+  shown_indices tr = [0; 1; 2] /\ shown_log_ids tr = [0; 1; 2] /\ total_logs tr = 3.
+Proof. vm_compute. repeat split; reflexivity. Qed.
